@@ -38,10 +38,10 @@ from props import _session
 from sched import linesched as LS
 
 PROPERTY = "C06"
-LEAN_MODULES = ["LccModel.Props.C06", "LccModel.Props.C06Store", "LccModel.Props.C06Loc", "LccModel.Proto", "LccModel.ProtoReport"]   # the last two: what drivers/C06.lean imports besides the models
-PROPS_FILES = ["LccModel/Props/C06.lean", "LccModel/Props/C06Store.lean", "LccModel/Props/C06Loc.lean"]
+LEAN_MODULES = ["LccModel.Props.C06", "LccModel.Props.C06Store", "LccModel.Props.C06Loc", "LccModel.Props.C06Name", "LccModel.Proto", "LccModel.ProtoReport", "LccModel.ProtoSession"]   # the last three: what drivers/C06.lean imports besides the models
+PROPS_FILES = ["LccModel/Props/C06.lean", "LccModel/Props/C06Store.lean", "LccModel/Props/C06Loc.lean", "LccModel/Props/C06Name.lean"]
 NAMESPACES = {"LccModel/Props/C06.lean": "LccModel.C06", "LccModel/Props/C06Store.lean": "LccModel.C06Store",
-              "LccModel/Props/C06Loc.lean": "LccModel.C06Loc"}
+              "LccModel/Props/C06Loc.lean": "LccModel.C06Loc", "LccModel/Props/C06Name.lean": "LccModel.C06Name"}
 DRIVER = "drivers/C06.lean"
 TRUSTED_BASE = [
     "Lean 4.33.0 kernel; axioms of the property theorems within {propext, Classical.choice, Quot.sound}",
@@ -391,6 +391,25 @@ class Emitter:
             # the description IS the content written (compared by the oracle); both may be decorated
             opt0 = a[2] if len(a) > 2 and isinstance(a[2], dict) else {}
             p = decorate(p0, opt0.get("text"))
+            # the NAME the test gives the attachment (round 5): any characters, any length (`_session.ATT_NAMES_ODD`); one the file
+            # system refuses (`ATT_NAMES_REFUSED`) makes the write raise OSError inside the block — the test handles it, nothing
+            # may reference the attachment then.  Which of the two happens is OBSERVED, not predicted.
+            name = opt0.get("name")
+            if name is not None:
+                try:
+                    if a[1] == "content":
+                        lcc.save_attachment_content(p, name, p)
+                    elif a[1] == "image-content":
+                        lcc.save_image_content(p, name, p)
+                    else:
+                        with (lcc.prepare_image_attachment if a[1] == "prepare-image" else lcc.prepare_attachment)(name, p) as path:
+                            with open(path, "w") as fh:
+                                fh.write(p)
+                except OSError:
+                    self._rec(p0, "abort", written=False, refused=name)
+                    return
+                self._rec(p0, "att", text=p)
+                return
             if a[1] == "content":
                 lcc.save_attachment_content(p, "att.txt", p)
             elif a[1] == "image-content":
@@ -526,6 +545,13 @@ def gen_att(rng):
         return ["att", mode, {"after": rng.choice(_AFTER), "via": rng.choice(_VIA)}]
     if mode != "nested" and rng.random() < 0.12:
         return ["att", mode, {"text": rng.choice(["multiline", "long", "ws-tail", "trail-nl"])}]
+    if mode in ("content", "image-content", "prepare", "prepare-image") and rng.random() < 0.45:
+        # the name of the attachment: odd but legitimate, or (one in four) one the file system refuses — mostly THE SAME long name,
+        # so that several emitters (threads, tests running at the same time) use it in one run
+        r = rng.random()
+        name = (_session.ATT_NAMES_REFUSED[0] if r < 0.17 else rng.choice(_session.ATT_NAMES_REFUSED) if r < 0.25
+                else rng.choice(_session.ATT_NAMES_ODD))
+        return ["att", mode, {"name": name}]
     return ["att", mode]
 
 
@@ -1261,6 +1287,19 @@ class RunStream(C.Stream):
               "threads": [[["att", "image-file"], ["abort", "prepare", True], ["abort", "prepare-late", True], ["log", "info"],
                            ["abort", "file-missing", False], ["log", "info"]]]}
              for i in range(2)]}]},
+        # round 5: the NAMES of the attachments — two tests at once, each from its own thread and from an lcc.Thread, saving
+        # attachments whose names hold `#`, `?`, `%`, blanks, non-ASCII letters (seeded C06-11: the event referenced a
+        # percent-escaped name), and the same name of 304 characters again and again (seeded C06-12: cut to its last 255
+        # characters the name loses its counter; on the unchanged tree the file system refuses it: nothing is referenced)
+        {"n": 2, "line": None, "sched": {"strategy": "rr", "width": 2, "seed": 5},
+         "suites": [{"name": "s0", "setup": None, "teardown": None, "tests": [
+             {"name": "t%d" % i,
+              "main": [["att", "content", {"name": "core #1.txt"}], ["spawn", 0], ["att", "prepare", {"name": "w" * 300 + ".txt"}],
+                       ["att", "content", {"name": "100%.txt"}], ["att", "content", {"name": "w" * 300 + ".txt"}], ["step"],
+                       ["att", "prepare", {"name": "what?.log"}], ["join", 0], ["att", "image-content", {"name": "a%20b.png"}], ["log", "info"]],
+              "threads": [[["att", "content", {"name": "w" * 300 + ".txt"}], ["att", "prepare-image", {"name": "\u00fcn\u00ef c\u00f8d\u00e9 #2.png"}],
+                           ["att", "content", {"name": "sub/dir.txt"}], ["att", "content", {"name": "w" * 300 + ".txt"}], ["log", "info"]]]}
+             for i in range(2)]}]},
         # minimised failing inputs of the seeded change C06-2 (LogAttachmentEvent fired in a `finally:`)
         {"n": 4, "line": None, "sched": {"strategy": "fifo", "width": 1, "seed": 637710979},
          "suites": [{"name": "s0", "setup": None, "teardown": None, "tests": [
@@ -1544,6 +1583,15 @@ def act_features(a, where):
         f.append("url-text-" + a[1])
     if a[0] == "att" and len(a) > 2 and a[2].get("text"):
         f.append("att-text-" + a[2]["text"])
+    if a[0] == "att" and len(a) > 2 and a[2].get("name") is not None:
+        nm = a[2]["name"]
+        f.append("att-name:refused-by-fs" if not _session.stored_name_fits(1, nm) else "att-name:odd")
+        if any(ch in nm for ch in "%#?"):
+            f.append("att-name:url-special(%#?)")
+        if any(ord(ch) > 127 for ch in nm):
+            f.append("att-name:non-ascii")
+        if len(nm) > 250:
+            f.append("att-name:longer-than-250")
     if a[0] == "att" and a[1] not in ("content", "prepare"):
         f.append("att:" + a[1])
         if len(a) > 2:
@@ -1634,7 +1682,7 @@ def real_attach(case):
                 # "ok" | "abort" (the body raises before writing the file) | "abort-late" (… after writing it)
                 kind = plan[t - 1][k] if t - 1 < len(plan) and k < len(plan[t - 1]) else "ok"
                 try:
-                    with session.prepare_attachment("a.txt", content) as path:
+                    with session.prepare_attachment(case.get("name", "a.txt"), content) as path:
                         mine.append([os.path.basename(path), kind, k])
                         if kind == "abort":
                             record.append((t, "<abort>", os.path.basename(path), None))
@@ -1729,6 +1777,9 @@ class AttachStream(C.Stream):
         if rng.random() < 0.5:
             # some blocks are left by an exception raised by the body, before or after it wrote the file
             case["plan"] = [[rng.choice(["ok", "ok", "abort", "abort", "abort-late"]) for _ in range(per)] for _ in range(threads)]
+        if rng.random() < 0.4:
+            # every thread gives its attachments the SAME odd (legitimate) name: `%`, `#`, `?`, other scripts, the longest that fits …
+            case["name"] = rng.choice(_session.ATT_NAMES_ODD)
         return case
 
     def impl(self, case):
@@ -1796,6 +1847,10 @@ class AttachStream(C.Stream):
 
     def features(self, case, obs):
         f = ["threads=%d" % case["threads"], "line=" + case["line"]["strategy"]]
+        if case.get("name") is not None:
+            f.append("att-name:odd")
+            if any(ch in case["name"] for ch in "%#?"):
+                f.append("att-name:url-special(%#?)")
         if obs["switches_inside"] > 0:
             f.append("preempted-inside-prepare_attachment")
         if obs["steals"]:
@@ -1898,7 +1953,12 @@ def gen_store_case(rng):
                 lp, target = rng.choice(free), rng.choice(_REG_PATHS)
                 ops.append([t, "symlink", lp, target, rng.choice(["rel", "abs"])])
                 links[lp] = target
-    return {"threads": threads, "ops": ops}
+    case = {"threads": threads, "ops": ops}
+    if rng.random() < 0.4:
+        # the attachments get odd (legitimate) names — `%`, `#`, `?`, blanks, other scripts, names that look like a stored
+        # name … (`_session.ATT_NAMES_ODD`), a different one per call — instead of c.txt / c.png
+        case["names"] = rng.randrange(len(_session.ATT_NAMES_ODD))
+    return case
 
 
 def real_store(case):
@@ -1954,6 +2014,12 @@ def real_store(case):
             return "done"
         # the two attachment calls
         n_att[0] += 1
+
+        def att_name(tame):
+            if case.get("names") is None:
+                return tame
+            odd = _session.ATT_NAMES_ODD
+            return odd[(case["names"] + 5 * n_att[0]) % len(odd)]
         before = len(fired)
         call = {"n": n_att[0], "op": k}
         try:
@@ -1966,11 +2032,11 @@ def real_store(case):
                 call["expected"] = list(op[2])
                 text = _tok_text(op[2])
                 if op[3] == "content":
-                    lcc.save_attachment_content(text, "c.txt", "attachment %d" % n_att[0])
+                    lcc.save_attachment_content(text, att_name("c.txt"), "attachment %d" % n_att[0])
                 elif op[3] == "image-content":
-                    lcc.save_image_content(text, "c.png", "attachment %d" % n_att[0])
+                    lcc.save_image_content(text, att_name("c.png"), "attachment %d" % n_att[0])
                 else:
-                    with (lcc.prepare_attachment if op[3] == "prepare" else lcc.prepare_image_attachment)("c.txt", "attachment %d" % n_att[0]) as path:
+                    with (lcc.prepare_attachment if op[3] == "prepare" else lcc.prepare_image_attachment)(att_name("c.txt"), "attachment %d" % n_att[0]) as path:
                         with open(path, "w") as fh:
                             fh.write(text)
             call["outcome"] = "done"
@@ -2163,7 +2229,7 @@ class StoreStream(C.Stream):
         return _store_modified_after_attach(case) and any(c["outcome"] == "done" for c in obs["calls"])
 
     def features(self, case, obs):
-        f = ["threads=%d" % case["threads"]]
+        f = ["threads=%d" % case["threads"]] + (["att-names:odd"] if case.get("names") is not None else [])
         links, attached, count = {}, {}, {}
         for op, out in zip(case["ops"], obs["outcomes"]):
             k = op[1]
@@ -2227,8 +2293,69 @@ class SessStream(_session.SessionStream):
         # ... and "inside the step that was current in the emitting thread", for every step change (also one to a
         # step with the same description), on the streams of call sequences a run can issue
         if obs["error"] is None and _session.protocol_following(case["ops"]):
-            out += _session.step_change_failures("C06", case["ops"], obs["fired"])
+            out += _session.step_change_failures("C06", case["ops"], obs["fired"], [r["i"] for r in obs.get("refused", [])])
         return out
+
+
+def attach_name_table():
+    """Decision table of the REAL `Session.prepare_attachment` as a function of (counter, given name): executed with the
+    counter set to n - 1 on every name of `_session.ATT_NAMES_ODD` / `ATT_NAMES_REFUSED` (n = 1) and on a few names for counters
+    of 1 to 6 digits.  Read back: did the write inside the block raise OSError (the file system refuses the name); the ONE
+    directory entry that appeared under <report dir>/attachments; the path the fired LogAttachmentEvent carries."""
+    import lemoncheesecake.events as E
+    import lemoncheesecake.session as S
+    from lemoncheesecake.reporting import Report
+    from lemoncheesecake.testtree import BaseTest
+
+    def lean_list(text):
+        return "[" + ", ".join(str(ord(ch)) for ch in text) + "]"
+    names = list(_session.ATT_NAMES_ODD) + list(_session.ATT_NAMES_REFUSED)
+    pairs = [(1, nm) for nm in names]
+    for n in (9, 10, 42, 999, 1000, 9999, 10000, 123456):
+        pairs += [(n, nm) for nm in ("f.txt", "core #1.txt", "a%20b?.txt", "0002_f.txt", "v" * 250, "v" * 249, "\u00e9" * 125, "w" * 300 + ".txt")]
+    rows = []
+    for n, nm in pairs:
+        tmp = tempfile.mkdtemp(prefix="lccverif-c06name-")
+        fired = []
+
+        class RecEM(E.EventManager):
+            def fire(self, event):
+                fired.append(event)
+        old_inst = S.Session._instance
+        try:
+            session = S.Session(RecEM.load(), tmp, Report())
+            S.Session._instance = session
+            session.start_test(R._node_chain(["s", "t"], _session.md_of("t", 1), BaseTest))
+            session.set_step("step")
+            session._attachment_count = n - 1
+            refused = False
+            try:
+                with session.prepare_attachment(nm, "d") as path:
+                    with open(path, "w") as fh:
+                        fh.write("x")
+            except OSError:
+                refused = True
+            adir = os.path.join(tmp, "attachments")
+            entries = sorted(os.listdir(adir)) if os.path.isdir(adir) else []
+            paths = [e.attachment_path for e in fired if isinstance(e, E.LogAttachmentEvent)]
+            if refused:
+                out = ("true", "[]", "[]") if not entries and not paths else ("true", lean_list("?unexpected"), lean_list(repr((entries, paths))))
+            elif len(entries) == 1 and len(paths) == 1:
+                out = ("false", lean_list(entries[0]), lean_list(paths[0]))
+            else:
+                out = ("false", lean_list("?unexpected"), lean_list(repr((entries, paths))))
+        finally:
+            S.Session._instance = old_inst
+            shutil.rmtree(tmp, ignore_errors=True)
+        human = "n=%d name=%r -> %s" % (n, nm[:40], "refused" if refused else "%r / %r" % (entries[0][:40] if entries else None, paths[0][:52] if paths else None))
+        rows.append(("(%d, %s)" % (n, lean_list(nm)), "(%s, %s, %s)" % out, human))
+    return C.Table("attachNameTable", "List ((Nat × List Nat) × (Bool × List Nat × List Nat))", rows)
+
+
+def tables(ctx):
+    # the stored name and the referenced path as a function of (counter, given name), and which names the file system refuses:
+    # obligation Generated/C06TablesCheck.lean (`AttachName.stored`, `AttachName.storable`, `Session.attachName`)
+    return [attach_name_table()]
 
 
 def streams(ctx):
